@@ -292,3 +292,13 @@ Theorem tdx_module_policy_is_conjunction :
     tdx_module_allowed mods body = true <-> tdx_policy_admits mods body.
 Proof. exact tdx_module_allowed_spec. Qed.
 Print Assumptions tdx_module_policy_is_conjunction.
+
+(* which PCS policy a registration is verified under *)
+Theorem pcs_policy_in_force :
+  forall (cfg : TeeCfg) (sc : Constraints),
+    eff_pcs_policy cfg sc = policy_in_force cfg sc /\
+    (forall pp, runtime_pcs sc = Some pp -> policy_in_force cfg sc = pp) /\
+    (forall d dp, runtime_pcs sc = None -> f_default_policy cfg = Some d -> f_pcs cfg = true -> qp_pcs d = Some dp ->
+                  policy_in_force cfg sc = dp).
+Proof. exact pcs_policy_in_force_l. Qed.
+Print Assumptions pcs_policy_in_force.
